@@ -234,6 +234,116 @@ class Ctx(object):
         }
 
 
+# ---------------------------------------------------------------------- line-based ddmin
+def _src_slot(case):
+    """(container dict, key) holding the source text of a case, or None"""
+    if isinstance(case, dict):
+        if isinstance(case.get("src"), str):
+            return case, "src"
+        for k in ("case", "prog"):
+            if isinstance(case.get(k), dict) and isinstance(case[k].get("src"), str):
+                return case[k], "src"
+    return None
+
+
+def _corpus_to_src(ctx, case, version):
+    """turn a corpus case into an explicit-source case so that it can be minimized"""
+    import copy
+    c = copy.deepcopy(case)
+    holder = c if "corpus" in c else (c.get("case") if isinstance(c.get("case"), dict) and "corpus" in c["case"] else None)
+    if holder is None:
+        return None
+    try:
+        r = ctx.pool.call_one(version, "source", {"case": {k: v for k, v in holder.items() if k in ("corpus", "window")}, "limit": 400000})
+    except Exception:
+        return None
+    if r.get("status") != "ok" or len(r.get("src", "")) >= 400000:
+        return None
+    holder.pop("corpus", None)
+    holder.pop("window", None)
+    holder["src"] = r["src"]
+    holder.setdefault("mode", "exec")
+    return c
+
+
+def minimize(ctx, budget_s=90.0):
+    """fallback shrinker for failures Hypothesis did not shrink (fixed / corpus cases) or left
+    large: delete line chunks (ddmin) while the same signature keeps failing on the same interpreter"""
+    import copy
+    if ctx.best is None or COLLECT:
+        return
+    rec = ctx.best
+    version = rec["version"]
+    sig = tuple(rec["signature"])
+    check = ctx.check
+    if hasattr(check, "replay") and "steps" in rec["case"]:
+        return
+    case = rec["case"]
+    if _src_slot(case) is None:
+        conv = _corpus_to_src(ctx, case, version)
+        if conv is None:
+            return
+        case = conv
+    t_end = time.monotonic() + budget_s
+
+    def fails(c):
+        try:
+            if hasattr(check, "run_case"):
+                res = check.run_case(ctx, c, [version])
+            else:
+                res = ctx.pool.call(check.OP, check.op_args(c), [version])
+        except Exception:
+            return False
+        r = (res or {}).get(version) or {}
+        for viol in r.get("violations") or []:
+            if (viol["kind"], viol["sub"]) == sig and findings.match(ctx.known, ctx.pid, c, version, viol) is None:
+                return viol
+        return False
+
+    first = fails(case)
+    if not first:
+        return
+    holder, key = _src_slot(case)
+    lines = holder[key].split("\n")
+    if len(lines) < 2:
+        return
+    n = 2
+    best_viol = first
+    while len(lines) >= 2 and time.monotonic() < t_end:
+        chunk = max(1, len(lines) // n)
+        reduced = False
+        i = 0
+        while i < len(lines) and time.monotonic() < t_end:
+            cand = lines[:i] + lines[i + chunk:]
+            if cand:
+                trial = copy.deepcopy(case)
+                h2, k2 = _src_slot(trial)
+                h2[k2] = "\n".join(cand)
+                viol = fails(trial)
+                if viol:
+                    lines = cand
+                    best_viol = viol
+                    reduced = True
+                    continue
+            i += chunk
+        if reduced:
+            n = max(2, n - 1)
+        elif chunk == 1:
+            break
+        else:
+            n = min(len(lines), n * 2)
+    final = copy.deepcopy(case)
+    h2, k2 = _src_slot(final)
+    h2[k2] = "\n".join(lines)
+    if len(canon(final)) < len(canon(rec["case"])) or "corpus" in canon(rec["case"]):
+        new = dict(rec)
+        new["case"] = final
+        new["violation"] = best_viol
+        new["minimized_by"] = "line ddmin"
+        ctx.best = new
+        ctx._write_replay(new)
+
+
 def default_hypothesis_run(ctx):
     """@given(check.strategy) -> ctx.evaluate"""
     import hypothesis
@@ -310,8 +420,11 @@ def shard_main(pid, tier, seed, shard, nshards, out_path):
                 check.hypothesis_run(ctx)
             else:
                 default_hypothesis_run(ctx)
-        elif hasattr(check, "shrink_fixed"):
-            check.shrink_fixed(ctx)
+        if ctx.best is not None:
+            try:
+                minimize(ctx)
+            except Exception:
+                pass
     except poolmod.HarnessError as e:
         status = "harness_error"
         err = str(e)[-3000:]
@@ -545,6 +658,12 @@ def finish(check, pid, tier, seed, shards, errors, wall):
         with open(os.path.join(EVIDENCE_DIR, "%s.json" % pid), "w") as f:
             json.dump(ev, f, indent=1, sort_keys=True)
             f.write("\n")
+        if tier == "thorough":
+            # keep the last thorough run's evidence next to the (later rewritten) per-property file
+            os.makedirs(os.path.join(EVIDENCE_DIR, "thorough"), exist_ok=True)
+            with open(os.path.join(EVIDENCE_DIR, "thorough", "%s.json" % pid), "w") as f:
+                json.dump(ev, f, indent=1, sort_keys=True)
+                f.write("\n")
     for e in kf_entries:
         print("KNOWN-FINDING: property=%s %s [%s; seen %d times in this run]" % (pid, e["what"], e["id"], known.get(e["id"], 0)))
     if final_paths:
